@@ -97,6 +97,11 @@ class VerifyAttrs(object):
                 "dimension attribute can only be "
                 "used on pointer and references"
             )
+        if attrs["dimension"] is True:
+            raise RuntimeError(
+                "dimension attribute must have a value for variable "
+                "'{}' at line {}".format(ast.name, node.linenumber)
+            )
 
         self.parse_attrs(node, ast)
 
